@@ -2,11 +2,13 @@
 
 Every type with a declared size / count / length:
    strings   OCTET STRING, BIT STRING, IA5String, PrintableString, VisibleString, NumericString,
-             BMPString, UniversalString, UTF8String, GeneralString
+             BMPString, UniversalString, UTF8String, GeneralString, TeletexString, VideotexString,
+             GraphicString, ObjectDescriptor
    lists     SEQUENCE OF / SET OF  of BOOLEAN (1 bit), NULL (0 bits), INTEGER (0..255)
    members   a sized string as OPTIONAL member of a SEQUENCE, as extension addition (open type
              in PER/OER), as CHOICE alternative
-   lengths   INTEGER (unconstrained, 0..MAX, MIN..0), extensible ENUMERATED
+   lengths   INTEGER (unconstrained, 0..MAX, MIN..0, extensible), extensible ENUMERATED, OBJECT IDENTIFIER,
+             RELATIVE-OID, REAL, UTCTime, GeneralizedTime
 x SIZE constraints at and beyond the 64K boundary
    0..65535, 0..65536, 1..65537, 0..2^24-1, 0..2^31-1, 0..2^32-1, 1..MAX, 32767..65535,
    65536..65540, extensible small root, extensible 2^31-1 root, fixed 5 / 65535 / 65536 / 70000,
@@ -37,6 +39,10 @@ STR_KINDS = {
     "UN": ("UniversalString", 0x1C, 32, 4, True, False),
     "U8": ("UTF8String", 0x0C, 8, 1, False, False),
     "GS": ("GeneralString", 0x1B, 8, 1, False, False),
+    "TS": ("TeletexString", 0x14, 8, 1, False, False),
+    "VX": ("VideotexString", 0x15, 8, 1, False, False),
+    "GR": ("GraphicString", 0x19, 8, 1, False, False),
+    "OD": ("ObjectDescriptor", 0x07, 8, 1, False, False),
 }
 # code: (constructor, BER tag, element ASN.1, UPER bits/element, element bytes in memory, BER element, OER element, XER element)
 LST_KINDS = {
@@ -227,7 +233,8 @@ def module_text(ts):
         lines.append("X%s ::= SEQUENCE { id INTEGER (0..255), ..., p %s OPTIONAL }" % (w, a))
         lines.append("H%s ::= CHOICE { n NULL, p %s }" % (w, a))
     lines += ["IU ::= INTEGER", "IS ::= INTEGER (0..MAX)", "IM ::= INTEGER (MIN..0)", "IX ::= INTEGER (0..7, ...)",
-              "EN ::= ENUMERATED { a, b, ..., c }", "END", ""]
+              "EN ::= ENUMERATED { a, b, ..., c }", "OI ::= OBJECT IDENTIFIER", "RO ::= RELATIVE-OID", "RL ::= REAL",
+              "UT ::= UTCTime", "GT ::= GeneralizedTime", "END", ""]
     return "\n".join(lines)
 
 
@@ -389,4 +396,19 @@ def leaf_cases(rng):
     out.append(("EN", "uper", "extension index with 64K length", pack("1" + "1" + U_bits(0xC4, 8)), None))
     out.append(("EN", "uper", "valid", b"\x40", "valid"))
     out.append(("EN", "oer", "valid", b"\x01", "valid"))
+    # length-prefixed primitives: (tag, valid contents)
+    for tn, tag, body in (("OI", 0x06, b"\x2a\x03\x04"), ("RO", 0x0D, b"\x03\x04"), ("RL", 0x09, b"\x80\x00\x01"),
+                          ("UT", 0x17, b"260101000000Z"), ("GT", 0x18, b"20260101000000Z")):
+        out.append((tn, "ber", "valid", bytes([tag, len(body)]) + body, "valid"))
+        out.append((tn, "oer", "valid", bytes([len(body)]) + body, "valid"))
+        out.append((tn, "uper", "valid", bytes([len(body)]) + body, "valid"))
+        for L in BIG_L:
+            out.append((tn, "ber", "length %d, no data" % L, bytes([tag]) + U.ber_len(L), None))
+            out.append((tn, "oer", "length %d, no data" % L, U.oer_len(L), None))
+            out.append((tn, "oer", "length %d, some data" % L, U.oer_len(L) + body, None))
+        for m in UPER_FRAG:
+            out.append((tn, "uper", "fragment c%d, no data" % m, bytes([0xC0 | m]), None))
+        out.append((tn, "uper", "length 16383, no data", b"\xbf\xff", None))
+        out.append((tn, "uper", "c4 + partial", b"\xc4" + rng.bytes(rng.range(1, 500)), None))
+        out.append((tn, "uper", "full fragment c1, then c4 and nothing", b"\xc1" + b"1" * 16384 + b"\xc4", None))
     return out
